@@ -93,6 +93,9 @@ def processLine (line : String) : String :=
       let fin := obj j "final"
       let d0 : Dir String := { target := old, temp := none }
       let liveSame := !(has j "liveBefore") || str j "liveBefore" == str j "liveAfter"
+      if variant == "mgmt.upsert_pending_restart" && outcome == "applied" then
+        s!"PROP C18 restart-requiring-edit-pending-in-the-file-was-switched-live-by-a-management-change case={c}"
+      else
       if outcome != "applied" && !liveSame then
         s!"PROP C18 failed-change-altered-running-config case={c} variant={variant} outcome={outcome} before={str j "liveBefore"} after={str j "liveAfter"}"
       else if outcome == "error" then
